@@ -12,7 +12,10 @@
 extern int __CPROVER_errno;
 unsigned nondet_uint(void);
 
-#define PMAX 16
+#ifndef C09_PMAX
+#define C09_PMAX 16
+#endif
+#define PMAX C09_PMAX
 char g_pc[PMAX + 1];         /* copy of the path given to mkpath (bound in requires) */
 unsigned g_n;                /* its length */
 unsigned g_ns;               /* its length without trailing slashes (at least 1 if g_n >= 1) */
@@ -25,7 +28,7 @@ unsigned g_calls;
 
 /* length of the string p (first NUL; loop-free: the 16 comparisons are written out), which
  * must be a prefix of the path: asserted at an arbitrary position j < l, i.e. for every j. */
-#define Z1(i) ((i) >= l || p[i] != 0)
+#define Z1(i) ((i) >= l || (i) >= PMAX || p[i] != 0)
 static unsigned c09_preflen(const char *p)
 {
 	VASSERT(p[PMAX] == 0, "mkdir/stat argument is NUL terminated within the bound");
@@ -80,6 +83,7 @@ char *strdup(const char *str)
 	unsigned i = 0;
 	for (; i < PMAX && str[i] != 0; i++) cpy[i] = str[i];
 	cpy[i] = 0;
+	cpy[PMAX] = 0;   /* slack byte of the fixed-size model buffer */
 	return cpy;
 }
 
@@ -144,7 +148,7 @@ void h_mkpath(void)
 	if (r == 0) REACH("mkpath succeeded");
 	if (r != 0) REACH("mkpath failed");
 	if (r == 0 && g_calls >= 4) REACH("four components");
-	if (r == 0 && g_n == 16 && g_ns < g_n && g_calls >= 2) REACH("16 characters with trailing slashes");
+	if (r == 0 && g_n == PMAX && g_ns < g_n && g_calls >= 2) REACH("longest path, with trailing slashes");
 	if (r == 0 && g_pc[0] == '/' && g_calls > 0) REACH("absolute path");
 	if (r == 0 && !is_dir && g_calls > 0) REACH("file path: last component not created");
 	if (r == 0 && g_n == 0) REACH("empty path");
